@@ -3,6 +3,18 @@
 import json, os
 
 CLAIMS = {
+ "C08": {
+  "text": "Decides the dispatch and the scalar operations, for which operator, operand order and operand type in MIR are the semantics: all 62 spec ops reach the handler of the reviewed dispatch table; comparison/logic/bit ops are exactly the operator named by asm.yml's stack_out expression on (a, b) in that order with From<bool>; Add/Sub/Mul/Div/Mod are i64::checked_* with None -> error and no other integer op; Shl/Shr/ShrI have the right operand types (logical vs arithmetic) and are dominated by the 0..64 bound check; pop2 returns [below-top, top]; popN_pushM apply f to the popped words in order and push only its `?`-checked result; the error index is pc before any update; memory readers take shared references. Partial claim: data-movement ops (SwapIndex, DupFrom, Select*, Reserve, Drop, Load/Store, ranges, sets) are value-level and declined.",
+  "note": "tables/dispatch.json is the reviewed dispatch table of the pinned tree. asm.yml stack_out expressions are the oracle for scalar ops.",
+  "technique": "static analysis: MIR match tables vs a reviewed dispatch table; return-value provenance of handler closures vs expressions parsed from asm.yml; operand-type and dominance checks",
+  "design_ref": "3/C08",
+ },
+ "C09": {
+  "text": "Decides, by comparing each function's return table (returned value per path + the normalised conditions dominating it) with the specified table: bool_from_word is exactly 0/1; every condition operand goes through it and every branch on it is dominated by its success; jump_if's four outcomes (fall through, JumpedToSelf on 0, checked_sub on negative, checked_add otherwise); halt_if/panic_if; eval = exec error or bool_from_word(last) with InvalidEvaluation otherwise; the pc plumbing of Vm::exec per control-flow variant and which variants leave the loop; RepeatEnd/Repeat bookkeeping tables (pop exactly when done, counter steps by one, stored resume index pc+1, initial counters). Partial claim: trip counts and counter values over whole executions follow from these tables only informally.",
+  "note": "Return tables are semantic summaries read from MIR; a refactor that changes the shape of an expression without changing behaviour must be re-reviewed.",
+  "technique": "static analysis: per-path return tables (provenance terms + dominating path-condition atoms) compared with specified tables",
+  "design_ref": "3/C09",
+ },
  "C02": {
   "text": "Decides determinism under every schedule by enumeration of every nondeterminism source in essential-vm and essential-check: no unsafe code (so parallel closures share state only through Sync types), every rayon consumer listed with its resolved output type and required to be order-preserving, no iteration over HashMap/HashSet, a shared-state inventory (no locks/atomics/cells/channels/thread-locals; the single OnceLock's initialiser captures only the shared solutions), no ambient inputs (time, env, thread identity, pool size, randomness, I/O, addresses), and the shared cache map only touched outside the parallel section. Since the enumeration is over the type-checked program, it covers all schedules and pool sizes, which no finite set of runs does.",
   "note": "Trusted: rayon's ordering contract for collect/partition/unzip into Vec/BTreeMap; Rust's Send/Sync checking; caller-supplied traits are deterministic. Not decided: equality with a sequential reference evaluation as a behavioural statement.",
